@@ -170,3 +170,106 @@ def tail_corruptions(b, start, r, count):
     out.append(("data:all00", b[:start] + b"\0" * (n - start)))
     out.append(("data:+junk", b + rnd_bytes(r, 7)))
     return out
+
+# ------------------------------------------------------------------ PNM
+def pnm_file(r, ptype, w, h, maxv=255, comments=False, samples=None, ws=None):
+    ch = {1: 1, 2: 1, 3: 3, 4: 1, 5: 1, 6: 3}[ptype]
+    sep = lambda: r.choice([" ", "\n", "\t", "\r\n", "  "]) if ws is None else ws
+    head = "P%d" % ptype + ("\n# a comment\n" if comments else sep()) + str(w) + sep() + ("#c\n" if comments else "") + str(h)
+    if ptype not in (1, 4): head += sep() + str(maxv)
+    head += "\n"
+    n = w * h * ch
+    if ptype in (1, 2, 3):
+        vals = samples if samples is not None else [r.below(2) if ptype == 1 else r.below(maxv + 1) for _ in range(n)]
+        body = ""
+        for k, v in enumerate(vals): body += str(v) + ("\n" if (k + 1) % (w * ch) == 0 else sep())
+        return head.encode() + body.encode()
+    if ptype == 4:
+        rowb = (w + 7) // 8
+        return head.encode() + (samples if samples is not None else rnd_bytes(r, rowb * h))
+    return head.encode() + (samples if samples is not None else bytes(r.below(maxv + 1) for _ in range(n)))
+
+def pnm_seeds(r, thorough):
+    S = []
+    dims = [(1, 1), (2, 2), (3, 2), (8, 2), (9, 3), (5, 1)] + ([(16, 2), (17, 5), (7, 7)] if thorough else [])
+    native = {1: "gray8", 2: "gray8", 3: "rgb8", 4: "gray1", 5: "gray8", 6: "rgb8"}
+    for (w, h) in dims:
+        for t in range(1, 7):
+            for comments in (False, True):
+                S.append(("pnmP%d%s" % (t, "c" if comments else ""), pnm_file(r, t, w, h, comments=comments), native[t], (w, h)))
+        S.append(("pnmP2max15", pnm_file(r, 2, w, h, maxv=15), "gray8", (w, h)))
+        S.append(("pnmP5max1", pnm_file(r, 5, w, h, maxv=1), "gray8", (w, h)))
+        S.append(("pnmP2big", pnm_file(r, 2, w, h, samples=[r.choice([256, 300, 65535, 99999, 2 ** 31, 10 ** 14 + 7]) for _ in range(w * h)]), "gray8", (w, h)))
+    return S
+
+def pnm_mutations(b, r, thorough):
+    """header tokens x boundary values (text), long digit runs, garbage and early ends in text bodies"""
+    out = []
+    import re
+    toks = [(m.start(), m.end()) for m in re.finditer(rb"\d+", b[:40])]      # type digit, width, height, [max]
+    vals = [0, 1, 2, 254, 255, 256, 2 ** 14, 2 ** 14 + 1, 21845, 21846, 2 ** 15, 2 ** 16, 65537, 2 ** 31 - 2, 2 ** 31 - 1, 2 ** 31, 2 ** 32 - 1, 2 ** 32, 10 ** 15, 10 ** 16, 10 ** 40]
+    for ti, (a, e) in enumerate(toks[:4]):
+        for v in (vals if ti > 0 else [0, 1, 2, 3, 4, 5, 6, 7, 9]):
+            out.append(("field:tok%d=%d" % (ti, v if v < 10 ** 9 else -1), b[:a] + str(v).encode() + b[e:]))
+    out.append(("magic:Q", b"Q" + b[1:])); out.append(("magic:p", b"p" + b[1:]))
+    out.append(("type:hi", b[:1] + b"\xb1" + b[2:])); out.append(("type:/", b[:1] + b"/" + b[2:]))
+    out.append(("hdr:nows", b.replace(b"\n", b"", 1)))
+    out.append(("hdr:comment-eof", b[:3] + b"# no end of line"))
+    out.append(("hdr:neg", b[:2] + b" -3 " + b[3:]))
+    if b[1:2] in (b"1", b"2", b"3"):
+        body = toks[-1][1] if toks else 0
+        for n in (14, 15, 16, 17, 40, 200):
+            out.append(("text:digits%d" % n, b[:body + 1] + b"1" * n + b" " + b[body + 1:]))
+            out.append(("text:zeros%d" % n, b[:body + 1] + b"0" * n + b"7 " + b[body + 1:]))
+        out.append(("text:garbage", b[:body + 3] + b"x" + b[body + 3:]))
+        out.append(("text:minus", b[:body + 1] + b"-" + b[body + 1:]))
+        out.append(("text:nul", b[:body + 2] + b"\0" + b[body + 2:]))
+        out.append(("text:ff", b[:body + 2] + b"\xff" + b[body + 2:]))
+        out.append(("text:vt", b[:body + 1] + b"\x0b\x0c" + b[body + 1:]))
+        out.append(("text:extra", b + b" 1 2 3 4 5 6 7 8 9"))
+    return out
+
+# ------------------------------------------------------------------ TARGA
+def tga_file(w, h, bpp, rle=False, origin=False, data=b"", idlen=0, cmtype=0, cmlen=0, imgtype=None):
+    desc = (8 if bpp == 32 else 0) | (32 if origin else 0)
+    it = imgtype if imgtype is not None else (10 if rle else 2)
+    return struct.pack("<BBBHHBHHHHBB", idlen, cmtype, it, 0, cmlen, 0, 0, 0, w, h, bpp, desc) + b"\x55" * idlen + data
+
+def tga_rle_encode(r, px, bpp):
+    """px: list of pixels (bytes objects) in file order; packets may cross rows (as in real files)"""
+    out, i, n = bytearray(), 0, len(px)
+    while i < n:
+        run = 1
+        while i + run < n and px[i + run] == px[i] and run < 128: run += 1
+        if run >= 2 or r.chance(1, 3):
+            out.append(0x80 | (run - 1)); out += px[i]; i += run
+        else:
+            k = min(n - i, 1 + r.below(5))
+            out.append(k - 1)
+            for j in range(k): out += px[i + j]
+            i += k
+    return bytes(out)
+
+def tga_seeds(r, thorough):
+    S = []
+    dims = [(1, 1), (2, 2), (3, 2), (4, 3), (5, 1), (1, 4)] + ([(9, 4), (16, 3), (130, 2)] if thorough else [])
+    for (w, h) in dims:
+        for bpp in (24, 32):
+            nb = bpp // 8
+            for origin in (False, True):
+                dst = "rgb8" if bpp == 24 else "rgba8"
+                S.append(("tga%d%s" % (bpp, "o" if origin else ""), tga_file(w, h, bpp, origin=origin, data=rnd_bytes(r, w * h * nb)), dst, (w, h)))
+                base = [rnd_bytes(r, nb) for _ in range(3)]
+                px = [r.choice(base) if r.chance(2, 3) else rnd_bytes(r, nb) for _ in range(w * h)]
+                S.append(("tgarle%d%s" % (bpp, "o" if origin else ""), tga_file(w, h, bpp, rle=True, origin=origin, data=tga_rle_encode(r, px, nb)), dst, (w, h)))
+        S.append(("tga24id", tga_file(w, h, 24, data=rnd_bytes(r, w * h * 3), idlen=5), "rgb8", (w, h)))
+    # the fixed overrun witness and relatives
+    S.append(("tgarle-overrun", tga_file(2, 2, 24, rle=True, data=bytes([0xFF, 1, 2, 3])), "rgb8", (2, 2)))
+    S.append(("tgarle-exact", tga_file(2, 2, 24, rle=True, data=bytes([0x83, 1, 2, 3])), "rgb8", (2, 2)))
+    S.append(("tgarle-rawover", tga_file(2, 2, 24, rle=True, data=bytes([0x04]) + bytes(range(15))), "rgb8", (2, 2)))
+    return S
+
+TGA_FIELDS = [("idlen", 0, 1), ("cmtype", 1, 1), ("imgtype", 2, 1), ("cmstart", 3, 2), ("cmlen", 5, 2), ("cmdepth", 7, 1), ("xorg", 8, 2),
+              ("yorg", 10, 2), ("width", 12, 2), ("height", 14, 2), ("bpp", 16, 1), ("desc", 17, 1)]
+TGA_EXTRA = {"imgtype": [0, 1, 2, 3, 9, 10, 11], "bpp": [8, 15, 16, 24, 32], "desc": [0, 8, 32, 40, 16, 15, 1], "idlen": [237, 238, 239],
+             "width": [2, 3, 16384, 16385, 21845, 21846, 46341], "height": [2, 3, 46341, 65535]}
